@@ -110,7 +110,7 @@ def run_history(job):
     path = os.path.join(scratch, "mg-%d-%d.numbers" % (os.getpid(), idx))
     trace = {"init": picture(tb), "ev": [], "meta": {"idx": idx}}
     for op in ops:
-        op = {k: v for k, v in op.items() if k not in ("cut",)}
+        op = {k: v for k, v in op.items() if k not in ("cut", "ph")}
         e = dict(op)
         k = op["op"]
         try:
@@ -118,6 +118,8 @@ def run_history(job):
                 rs = [rect_a1(x) for x in op["rs"]]
                 tb.merge_cells(rs if (len(rs) > 1 or as_list) else rs[0])
             elif k == "write":
+                from numbers_parser import MergedCell
+                e["ph"] = isinstance(tb.cell(op["r"] - 1, op["c"] - 1), MergedCell)
                 tb.write(op["r"] - 1, op["c"] - 1, VALS[op["v"]])
             elif k == "addrow":
                 tb.add_row(op["n"], None if op["at"] == tb.num_rows + 1 else op["at"] - 1, VALS[op["d"]])
@@ -177,7 +179,8 @@ def validate(ctx, traces, label):
                 rejected += 1
                 ev = t["ev"][l - 1]
                 prior = [e["op"] for e in t["ev"][:l]]
-                key = {"engine": "trace", "clause": clause, "label": label, "op": op, "exc": (ev.get("exc") or "").split(":")[0],
+                wrote_ph = any(e.get("ph") for e in t["ev"][:l])
+                key = {"engine": "trace", "clause": clause, "label": label, "op": op, "exc": (ev.get("exc") or "").split(":")[0], "wrote_into_placeholder": wrote_ph,
                        "merge_then_structural": "merge" in prior and any(o in ("addrow", "addcol", "delrow", "delcol") for o in prior[prior.index("merge"):])}
                 ctx.fail(key, "trace rejected at event %d (%s): %s; ops %s; post %s%s"
                          % (l, op, clause, json.dumps([{k: v for k, v in e.items() if k not in ("post", "re", "fresh")} for e in t["ev"][:l]])[:500],
@@ -207,7 +210,7 @@ def run(ctx):
     ctx.rule = ("histories = merge (single range or list of disjoint ranges) followed by writes, row/column insertions and deletions "
                 "before/inside/after the rectangles, save and reopen; all maximal bounded behaviours of Merges.tla are generated by TLC; "
                 "distinct_nontrivial = distinct op sequences with at least one merge")
-    ctx.assumptions = ["writing into a merge placeholder and merging overlapping ranges are outside the documented domain and not generated",
+    ctx.assumptions = ["merging overlapping ranges is outside the documented domain and not generated",
                        "after an edit that follows a merge Level A only demands a self-consistent picture that is the same after reload; "
                        "where the rectangles end up is Level B (DRIFT)"]
     ctx.stage("model-check")
